@@ -317,8 +317,9 @@ def run_unit(unit, repo='/repo', outdir=None, solver='z3', canary=True, timeout=
             for mt in cj.get('times-ms', {}).get('smt', {}).get('smt-run-module-times', []):
                 cfb += mt.get('function-breakdown', [])
             csucc = {f['function'].split('::')[-1]: f.get('success') for f in cfb}
-            not_failing = [f['name'] for f in cmeta['functions'] if csucc.get(f['gen_fn']) is not False]
-            res['canary'] = {'ran': True, 'ok': not not_failing, 'functions_expected_to_fail': len(cmeta['functions']),
+            cfs = [f for f in cmeta['functions'] if f.get('is_canary')]
+            not_failing = [f['name'] for f in cfs if csucc.get(f['gen_fn']) is not False]
+            res['canary'] = {'ran': True, 'ok': not not_failing, 'functions_expected_to_fail': len(cfs),
                              'functions_that_verified_ensures_false': not_failing}
             if not_failing:
                 res['status'] = 'undecided'
